@@ -10,18 +10,18 @@ open XpmVerif.Ident
 /-- **completeness**: every embedded task is a dependency of the submitted task, for every acyclic
     parameter graph of any size and depth (`rank` witnesses acyclicity; the real code does not
     terminate on cyclic parameters). -/
-theorem collectDeps_complete (g : Graph) (rank : Nat → Nat) (hr : ∀ n m, Child g n m → rank m < rank n)
-    (hb : ∀ n, rank n ≤ g.size) (root t : Nat) (he : Emb g root t) (hne : t ≠ root) :
-    t ∈ collectDeps g root := by
+theorem collectDeps_complete (g : Graph) (ld : Nat → Bool) (rank : Nat → Nat) (hr : ∀ n m, Child g ld n m → rank m < rank n)
+    (hb : ∀ n, rank n ≤ g.size) (root t : Nat) (he : Emb g ld root t) (hne : t ≠ root) :
+    t ∈ collectDeps g ld root := by
   unfold collectDeps
   simp only [List.mem_filter, decide_eq_true_eq]
-  exact ⟨depsNode_complete g rank hr _ root t he (by have := hb root; omega) _, hne⟩
+  exact ⟨depsNode_complete g ld rank hr _ root t he (by have := hb root; omega) _, hne⟩
 
 /-- **soundness**: only embedded tasks are collected. -/
-theorem collectDeps_sound (g : Graph) (root t : Nat) (h : t ∈ collectDeps g root) : Emb g root t := by
+theorem collectDeps_sound (g : Graph) (ld : Nat → Bool) (root t : Nat) (h : t ∈ collectDeps g ld root) : Emb g ld root t := by
   unfold collectDeps at h
   simp only [List.mem_filter, decide_eq_true_eq] at h
-  rcases depsNode_sound g _ root [root] t h.1 with h1 | h1
+  rcases depsNode_sound g ld _ root [root] t h.1 with h1 | h1
   · simp at h1; exact absurd h1 h.2
   · exact h1
 
@@ -31,9 +31,21 @@ def gEx : Graph := { nodes := [
   { typeId := [2], args := [{ name := [98], value := .list [.int 4, .ref 2] }] },
   { typeId := [3], args := [], task := some 3 },
   { typeId := [4], args := [], task := some 3 }] }
-example : collectDeps gEx 0 = [3] := by decide
-example : Emb gEx 0 3 :=
+example : collectDeps gEx (fun _ => false) 0 = [3] := by decide
+example : Emb gEx (fun _ => false) 0 3 :=
   .step (n := 0) (m := 1) (.arg (by decide) (by decide))
     (.step (n := 1) (m := 2) (.arg (by decide) (by decide)) (.here (n := 2) (by decide)))
+
+/-- a *loaded* configuration (node 2, deserialised: keeps `task = 3`) is walked instead: no dependency on task 3, but on the
+    task 5 embedded in its arguments. -/
+def gLd : Graph := { nodes := [
+  { typeId := [1], args := [{ name := [97], value := .ref 2 }] },
+  { typeId := [2], args := [] },
+  { typeId := [3], args := [{ name := [99], value := .ref 4 }], task := some 3 },
+  { typeId := [4], args := [] },
+  { typeId := [5], args := [], task := some 5 },
+  { typeId := [6], args := [], task := some 5 }] }
+example : collectDeps gLd (fun _ => false) 0 = [3] := by decide
+example : collectDeps gLd (fun n => n == 2) 0 = [5] := by decide
 
 end XpmVerif.C04Deps
